@@ -972,6 +972,9 @@ func (r *result) getContainerUpdate(u *ContainerUpdate, plugin string) (*Contain
 	// for update requests delay appending the requested container (in the response getter)
 	if r.request.update == nil || r.request.update.Container.Id != id {
 		r.reply.update = append(r.reply.update, update)
+	} else {
+		// the entry of the container being updated starts from what the runtime requested
+		update.Linux.Resources = r.request.update.LinuxResources.Copy()
 	}
 
 	return update, nil
